@@ -167,6 +167,24 @@ def _builtin(ex, st, c, callee, args, fn):
         if k == 'then':
             return Enum(z3.If(o == 0, args[1].disc(), o), {})
         return {'is_lt': o == -1, 'is_le': o != 1, 'is_gt': o == 1, 'is_ge': o != -1, 'is_eq': o == 0, 'is_ne': o != 0}[k]
+    # ---------------------------------------------------------------- floats
+    m = re.search(r'(?:^|::)f64::<impl f64>::(\w+)$', c) or re.match(r'^f64::(\w+)$', c)
+    if m:
+        k = m.group(1)
+        if k in ('ceil', 'floor', 'round', 'trunc', 'abs'):
+            return ex.float_round_fn(args[0], k)
+        if k in ('max', 'min'):
+            a, b = ex.to_lin(args[0]), ex.to_lin(args[1])
+            from .values import FLin
+            return FLin(z3.If(a >= b, a, b) if k == 'max' else z3.If(a <= b, a, b))
+        if k in ('is_nan', 'is_infinite'):
+            return z3.BoolVal(False)        # finite values only (stated domain)
+        if k in ('is_finite',):
+            return z3.BoolVal(True)
+        if k in ('is_sign_negative',):
+            return ex.to_lin(args[0]) < 0
+        if k in ('is_sign_positive',):
+            return ex.to_lin(args[0]) >= 0
     # ---------------------------------------------------------------- ranges
     if c.endswith('RangeInclusive::new'):
         return Struct(args)
@@ -323,6 +341,8 @@ def _builtin(ex, st, c, callee, args, fn):
         return args[0]
     if re.search(r'(^|::)hint::(black_box|must_use)$', c):
         return args[0]
+    if re.search(r'(^|::)(hint::)?spin_loop$', c) or re.search(r'(^|::)thread::yield_now$', c) or c == 'yield_now':
+        return UNIT
     if re.search(r'ptr::(const_ptr|mut_ptr)::<impl \*(const|mut) .+>::(cast|cast_mut|cast_const)$', c):
         return args[0]
     m = re.search(r'ptr::(?:const_ptr|mut_ptr)::<impl \*(?:const|mut) (.+)>::(add|byte_add|offset|sub)$', c)
